@@ -422,7 +422,10 @@ class Interp:
                 if hasattr(n, "ctx"):
                     n.ctx = ast.Load()
             cur = self.expr(load, env)
-            v = self.binop(st.op, cur, self.expr(st.value, env))
+            rhs_ = self.expr(st.value, env)
+            if isinstance(cur, list) and isinstance(st.op, ast.Add) and isinstance(rhs_, (tuple, range)):
+                rhs_ = list(rhs_)  # list += iterable extends
+            v = self.binop(st.op, cur, rhs_)
             self.store(st.target, v, env)
             return None
         if isinstance(st, ast.If):
@@ -1184,7 +1187,10 @@ class Interp:
         if fn in ("defaultdict", "collections.defaultdict"):
             import collections
 
-            return collections.defaultdict(list if not e.args or ast.unparse(e.args[0]) == "list" else dict)
+            fac = ast.unparse(e.args[0]) if e.args else "list"
+            if fac not in ("list", "dict", "int", "set", "float"):
+                raise AnalysisError(f"absint: defaultdict({fac}) not modelled")
+            return collections.defaultdict({"list": list, "dict": dict, "int": int, "set": set, "float": float}[fac])
         if fn == "repr" and len(vals) == 1 and isinstance(vals[0], PyNative):
             return repr(vals[0])
         if fn in ("str", "repr") and len(vals) == 1:
